@@ -211,7 +211,7 @@ impl PartialEq for {T} {{
         for T, fs in by_ty.items():
             sx.append(f"impl {T} {{")
             for f in fs:
-                si = f.get('symx_impl') or self.symx_spec_impl(f)
+                si = None if f.get('nosymx') else (f.get('symx_impl') or self.symx_spec_impl(f))
                 if si:
                     sx.append(si)
             sx.append("}")
@@ -267,7 +267,17 @@ impl PartialEq for {T} {{
                     except ring.IdentityFalse as e:
                         # the code does not compute the spec on this path: no lemma; Verus will fail the postcondition.
                         w = ring.path_witness(dag, c, s, p)
-                        info['false_outputs'].append(dict(path=pi, output=oi, tag=tag,
+                        exp_vals = None
+                        if w is not None:
+                            try:
+                                full = dict(w)
+                                for sp in spec:
+                                    for vn in dag.poly(sp).vars():
+                                        full.setdefault(vn, 0)
+                                exp_vals = [hex(dag.poly(sp).eval(full, ring.Q)) for sp in spec]
+                            except Exception:
+                                exp_vals = None
+                        info['false_outputs'].append(dict(path=pi, output=oi, tag=tag, expected=exp_vals,
                                                           conds=[dict(kind=cc['kind'], taken=cc['taken']) for cc in p['conds']],
                                                           witness={k: hex(v) for k, v in (w or {}).items()},
                                                           code=dag.spec_txt(c)[:1500], spec=dag.spec_txt(s)[:1500]))
